@@ -37,6 +37,7 @@ DECIDING = ['copy() == original, same class, new object', 'copy(**ov) == fresh c
             'frozen rejects mutation', 'equal frozen => equal hash and dict key',
             'thaw(freeze(m)) == m', 'freeze(frozen) is itself', 'None maps to None']
 TIMEOUT = {'quick': 300, 'thorough': 1800}
+ENV_FULL = True        # cheap enough: every shard runs once in each interpreter environment (core.ENV_MODES)
 K_SEQ = 'sequencer_specific-data-not-normalised'
 FROZEN_OF = {Message: FrozenMessage, MetaMessage: FrozenMetaMessage,
              UnknownMetaMessage: FrozenUnknownMetaMessage}
